@@ -31,6 +31,7 @@ import (
 	"go/types"
 	"reflect"
 	"sort"
+	"strings"
 	"unsafe"
 
 	"golang.org/x/tools/go/ssa"
@@ -48,14 +49,14 @@ type hfKey struct {
 }
 
 type synthState struct {
-	syn        map[synKey]ssa.Value
-	hf         map[hfKey][]Fact
-	hfBusy     map[*ssa.Function]bool
-	factsAt    map[*ssa.BasicBlock][]Fact
-	single     map[*ssa.Function]ssa.CallInstruction
-	singleDone map[*ssa.Function]bool
-	synOrigin  map[ssa.Value]ssa.Value // synthetic value -> the helper value it stands for
-	synSite    map[ssa.Value]*ssa.Call // synthetic value -> the call site it was translated at
+	syn         map[synKey]ssa.Value
+	hf          map[hfKey][]Fact
+	hfBusy      map[*ssa.Function]bool
+	factsAt     map[*ssa.BasicBlock][]Fact
+	single      map[*ssa.Function]ssa.CallInstruction
+	singleDone  map[*ssa.Function]bool
+	synOrigin   map[ssa.Value]ssa.Value // synthetic value -> the helper value it stands for
+	synSite     map[ssa.Value]*ssa.Call // synthetic value -> the call site it was translated at
 	usedAsValue map[*ssa.Function]bool
 }
 
@@ -403,10 +404,9 @@ func (w *World) virtOf(v ssa.Value, h *ssa.Function, hc *ssa.Call) ssa.Value {
 			k = replaceKey(k, w.key(p), w.key(hc.Call.Args[i]))
 		}
 	}
-	if k == orig {
-		if _, isLoad := v.(*ssa.UnOp); !isLoad {
-			k += "@" + w.key(hc)
-		}
+	if k == orig && !strings.HasPrefix(k, "*&global:") && !strings.HasPrefix(k, "&global:") {
+		// nothing of the caller in it: a value private to this invocation of the helper
+		k += "@" + w.key(hc)
 	}
 	return &virtVal{k: k, t: v.Type(), orig: v, site: hc}
 }
